@@ -39,6 +39,9 @@ MUTANTS = {
     "c02_globerr_only_first_pass": ("C02", "as.c", "        GlobErrFlag = True;\n    }", "        GlobErrFlag = (PassNo == 1);\n    }"),
     "c02_expected_still_counted": ("C02", "asmerr.c", "        free(pExpectError);\n        return;\n    }",
                                    "        free(pExpectError);\n        ErrorCount++;\n        return;\n    }"),
+    # the defect of the originally pinned tree, re-introduced
+    "c02_counters_16bit": ("C02", "asmerr.c", "LongWord             ErrorCount, WarnCount;", "Word                 ErrorCount, WarnCount;", 1,
+                           [("asmerr.h", "extern LongWord ErrorCount, WarnCount;", "extern Word ErrorCount, WarnCount;")]),
     # ---- C18 -------------------------------------------------------------------------------------------
     "c18_relaxed_leaks": ("C18", "as.c", "    SetFlag(&RelaxedMode, RelaxedName, DefRelaxedMode);\n    SetIntConstRelaxedMode(DefRelaxedMode);",
                           "    { static int b218_once; if (b218_once) SetFlag(&RelaxedMode, RelaxedName, RelaxedMode); else SetFlag(&RelaxedMode, RelaxedName, DefRelaxedMode); b218_once = 1; }"),
@@ -58,7 +61,10 @@ MUTANTS = {
     # (ClearSymbolList alone is an equivalent mutant: AsmParsInit drops the list head anyway)
     "c18_symbols_leak": ("C18", "as.c", "    ClearSymbolList();\n    ClearCodepages();\n    ClearMacroList();", "    ClearCodepages();\n    ClearMacroList();", 1,
                          [("asmpars.c", "void AsmParsInit(void) {\n    FirstSymbol = NULL;\n", "void AsmParsInit(void) {\n")]),
+    "c18_dotted_not_reset": ("C18", "as.c", "    DottedStructs = False;\n", ""),
     # ---- C17 -------------------------------------------------------------------------------------------
+    "c17_splitbyte_funcargs": ("C17", "tempresult.c", "        sprintf(Str, \"%\" PRId64, pResult->Contents.Int);\n        as_sdprcatf(p_dest, \"%s\", Str);",
+                               "        as_sdprcatf(p_dest, \"%\" PRId64, pResult->Contents.Int);"),
     "c17_s_sets_relaxed": ("C17", "as.c", "    MakeSectionList = !Negate;\n    return CMDOK;", "    MakeSectionList = !Negate;\n    DefRelaxedMode  = !Negate;\n    return CMDOK;"),
     "c17_debug_moves_pc": ("C17", "asmsub.c", "        AddSectionUsage(ProgCounter(), CodeLen);\n", "        AddSectionUsage(ProgCounter(), CodeLen);\n        if (CodeLen > 2) PCs[ActPC]++;\n"),
     "c17_uselist_drops_code": ("C17", "asmsub.c", "            WrError(ErrNum_Overlap);\n        }\n    }", "            WrError(ErrNum_Overlap);\n        }\n        if (CodeLen == 3) CodeLen = 2;\n    }"),
